@@ -21,12 +21,14 @@ import (
 	"fmt"
 	gonet "net"
 	"os"
+	"reflect"
 	"sort"
 	"strconv"
 	"strings"
 	"sync"
 	"sync/atomic"
 	"time"
+	"unsafe"
 
 	"github.com/lugu/qiloop/bus"
 	"github.com/lugu/qiloop/bus/directory"
@@ -691,13 +693,13 @@ func (w *fdWorld) observe(step int, op fdOp, exp fdObs, expEv []fdEv, expRq []fd
 	}
 	// the client sessions follow the directory: one refresh per event
 	for _, c := range w.cl {
-		if f := w.waitSession(fmt.Sprintf("session %d", c.i), c.id, op, fdObs{Up: allUp(len(w.srv))}); f != nil {
+		if f := w.waitSession(fmt.Sprintf("session %d", c.i), c.sess, op, fdObs{Up: allUp(len(w.srv))}); f != nil {
 			return f
 		}
 	}
 	// the standing observer session (its list follows the directory like the clients'; the connection of a server
 	// that stopped leaves its pool on the closer's goroutine) - and, after the last command, a FRESH session
-	if f := w.waitSession("the observer", w.obsID, op, exp); f != nil {
+	if f := w.waitSession("the observer", w.obs, op, exp); f != nil {
 		return f
 	}
 	if f := w.look(step, op, exp, w.obs, w.obsDir, "the observer session"); f != nil {
@@ -754,14 +756,11 @@ func (w *fdWorld) observe(step int, op fdOp, exp fdObs, expEv []fdEv, expRq []fd
 	for _, c := range w.cl {
 		dl := time.Now().Add(fdBound)
 		for {
-			fdMu.Lock()
-			n := 0
-			for a := range fdPools[c.id] {
-				if a != w.dirAddr {
-					n++
-				}
+			pool, ok := w.pooled(c.sess)
+			if !ok {
+				hlib.Fatal("federation: Session.poll / Session.pollMutex not found")
 			}
-			fdMu.Unlock()
+			n := len(pool)
 			if n == exp.Pool[c.i-1] {
 				break
 			}
@@ -773,6 +772,29 @@ func (w *fdWorld) observe(step int, op fdOp, exp fdObs, expEv []fdEv, expRq []fd
 		}
 	}
 	return nil
+}
+
+// pooled: the addresses in the pool of a session (Session.poll, read under Session.pollMutex), the directory's left
+// out; ok = false: the fields are not there (the session is not bus/session.Session as the harness knows it)
+func (w *fdWorld) pooled(sess bus.Session) (addrs map[string]bool, ok bool) {
+	mu := rwMutexOf(sess, "pollMutex")
+	v := reflect.ValueOf(sess)
+	if mu == nil || v.Kind() != reflect.Ptr {
+		return nil, false
+	}
+	f := v.Elem().FieldByName("poll")
+	if !f.IsValid() || f.Kind() != reflect.Map || !f.CanAddr() || f.Type().Key().Kind() != reflect.String {
+		return nil, false
+	}
+	addrs = map[string]bool{}
+	mu.RLock()
+	for _, k := range reflect.NewAt(f.Type(), unsafe.Pointer(f.UnsafeAddr())).Elem().MapKeys() {
+		if a := k.String(); a != w.dirAddr {
+			addrs[a] = true
+		}
+	}
+	mu.RUnlock()
+	return addrs, true
 }
 
 // label: who makes the connections to the service servers from now on
@@ -805,18 +827,20 @@ func (w *fdWorld) waitShut(c *fdClient, addr string) {
 }
 
 // waitSession: the session has refreshed its list once per event, and holds no connection to a server that stopped
-func (w *fdWorld) waitSession(who string, id int, op fdOp, exp fdObs) *fdFail {
+func (w *fdWorld) waitSession(who string, sess bus.Session, op fdOp, exp fdObs) *fdFail {
+	id := vhook.ID(sess)
 	dl := time.Now().Add(fdBound)
 	for {
 		fdMu.Lock()
 		n := fdStores[id]
+		fdMu.Unlock()
 		deadPooled := ""
+		pool, _ := w.pooled(sess)
 		for _, s := range w.srv {
-			if !exp.Up[s.i-1] && fdPools[id][s.addr] {
+			if !exp.Up[s.i-1] && pool[s.addr] {
 				deadPooled = s.addr
 			}
 		}
-		fdMu.Unlock()
 		if n >= w.nev && deadPooled == "" {
 			return nil
 		}
